@@ -127,9 +127,10 @@ func (g *sqlGen) sharedPayload() *Decl {
 }
 
 type sqlTable struct {
-	decl  *Decl
-	truth *SQLTable
-	idT   *Decl // named ID type, nil when the id is a plain int64
+	accented string // name of a column holding a non-ASCII letter ("" = none)
+	decl     *Decl
+	truth    *SQLTable
+	idT      *Decl // named ID type, nil when the id is a plain int64
 }
 
 var sqlTableStems = []string{"Item", "Order", "Client", "Invoice", "Ticket", "Parcel", "Wagon", "Garden", "Planet", "Route", "Sensor", "Ledger", "Recipe", "Module", "Harbor", "Island", "Tunnel", "Valley", "Basket", "Candle", "Account", "Project", "Booking", "Message"}
@@ -773,6 +774,15 @@ func (g *sqlGen) makePrimaryTable(i int) {
 		cols = append(cols, cs)
 		g.p.Feature("sqlcol:" + strings.SplitN(cs.col.Kind, ":", 2)[0])
 	}
+	// a column whose name holds a non-ASCII letter (not the first one, and lower-case: PostgreSQL
+	// and gomacro fold such a name alike); only used by a select key, never by a custom query
+	if !tiny && g.pr(0.2) {
+		name := fmt.Sprintf("Prénom%d", n)
+		f := &Field{Name: name, Type: Basic("string")}
+		cols = append(cols, colSpec{field: f, col: SQLColumn{Field: name, GoType: "string", Kind: "accented:string", SQLType: "text", NotNull: true, Domain: "text"}})
+		t.accented = name
+		g.p.Feature("sql:column-name-with-non-ascii-letter")
+	}
 	// the same payload type in two columns of one table, and under the same column name in two tables
 	if g.sharedJSON && i < 2 && !tiny {
 		d := g.sharedPayload()
@@ -1056,6 +1066,11 @@ func (g *sqlGen) addDirectives() {
 				add(SQLDirective{Kind: fmt.Sprintf("select-key-%d", len(names)), Raw: fmt.Sprintf("_SELECT KEY(%s)", strings.Join(names, ", ")), Expected: ""})
 				tr.SelectKeys = append(tr.SelectKeys, names)
 			}
+		}
+		if t.accented != "" {
+			add(SQLDirective{Kind: "select-key-1", Raw: fmt.Sprintf("_SELECT KEY(%s)", t.accented), Expected: ""})
+			tr.SelectKeys = append(tr.SelectKeys, []string{t.accented})
+			g.p.Feature("directive:select-key-on-non-ascii-column")
 		}
 		// CHECK with enum placeholders
 		for _, c := range cols {
